@@ -363,7 +363,7 @@ Proof.
   unfold finish. destruct (r_page r) as [|newest page'] eqn:P.
   - constructor; simpl; try assumption. intros r0 X; discriminate.
   - assert (Hnew : In newest (s_db s)).
-    { rewrite Hdb. apply in_or_app. left. apply (page_in_seen c); [exact Hpage|]. rewrite P. left; reflexivity. }
+    { rewrite Hdb. apply in_or_app. left. apply (page_in_seen c r); [rewrite P; exact Hpage|]. rewrite P. left; reflexivity. }
     assert (Hcl_new : forall e, Some (mkCL (ch_ts newest) (s_now s) (s_now s + c_qttl c)) = Some e ->
               cl_checked e <= s_now s /\ cl_exp e = cl_checked e + c_qttl c /\
               exists ch, In ch (s_db s) /\ cl_lm e = ch_ts ch /\
